@@ -15,11 +15,13 @@ type M = map[string]any
 // and flushed in sequence order (Buf/Flush), for events logged from several goroutines whose
 // order is defined by a sequence number taken at the linearization point.
 type Trace struct {
-	mu  sync.Mutex
-	f   *os.File
-	w   *bufio.Writer
-	n   int
-	buf []seqRec
+	// Sync flushes after every event, so that the trace survives a crash of the process.
+	Sync bool
+	mu   sync.Mutex
+	f    *os.File
+	w    *bufio.Writer
+	n    int
+	buf  []seqRec
 }
 
 type seqRec struct {
@@ -49,6 +51,9 @@ func (t *Trace) emitLocked(m M) {
 	t.w.Write(b)
 	t.w.WriteByte('\n')
 	t.n++
+	if t.Sync {
+		t.w.Flush()
+	}
 }
 
 func (t *Trace) Buf(seq uint64, m M) {
